@@ -502,6 +502,7 @@ def run_open(case):
     top.elaborate()
     top.apply(GenDAGPass())
     top.apply(WrapGreenletPass())
+    seams.seed_dag_order(top, random.Random(case["sched"][1]))   # S2: address-free presentation order
     random.seed(case["sched"][1])                # the pass shuffles with the global RNG
     top.apply(OpenLoopCLPass(print_line_trace=False))
     top.sim_reset()
